@@ -782,7 +782,7 @@ func chunkSegment(init *mp4.InitSegment, seg *mp4.MediaSegment, segMeta segMeta,
 		}
 		fs = append(fs, ff...)
 	}
-	chunks := make([]chunk, 0, segMeta.newDur/uint32(chunkDur))
+	chunks := make([]chunk, 0, int(segMeta.newDur)/chunkDur) // chunkDur > 0, but its low 32 bits may all be zero
 	trackID := init.Moov.Trak.Tkhd.TrackID
 	ch := createChunk(seg.Styp, trackID, segMeta.newNr)
 	for _, f := range seg.Fragments {
